@@ -86,6 +86,11 @@ class Rig:
         self.attr = 'upload_rate_limiter' if direction == 'up' else 'download_rate_limiter'
         self.setter = 'set_upload_speed_limit' if direction == 'up' else 'set_download_speed_limit'
         settings = Settings(credentials={'username': 'me', 'password': 'pw'})
+        settings.network.upnp.enabled = False          # no real network I/O when the server connection comes up
+        self.settings = settings
+        self.sim = None                                # SimNet, installed when the network is initialised
+        self.own_sim = False
+        self.reinits = 0
         self.net = Network(settings, EventBus())
         self.conns = [PeerConnection('10.0.0.%d' % (i + 1), 2000 + i, self.net,
                                      connection_type=PeerConnectionType.FILE) for i in range(n)]
@@ -145,8 +150,10 @@ class Rig:
     async def request(self, c: int):
         """One take_tokens() call of connection c (1-based), as send_file/receive_file make it."""
         lim = getattr(self.conns[c - 1], self.attr)
-        g = self.gen_of.get(id(lim), 0)
-        rcur = lim is self.current()
+        # a limiter object that no set_*_speed_limit() call produced: the limit in force is still the
+        # configured one, its grants are accounted there
+        g = self.gen_of.get(id(lim), self.nset)
+        rcur = lim is self.current() or id(lim) not in self.gen_of
         t0 = ticks(self.loop)
         self.pending[c] = (t0, lim)
         self.task_conn[asyncio.current_task()] = (c, lim)
@@ -173,6 +180,39 @@ class Rig:
         if hook is not None:
             hook()          # e.g. cancel the connection that has just been given the turn, before it runs
         return n
+
+    async def reinit(self):
+        """Environment: the network is initialised (again) - what SoulSeekClient.connect() does at start and
+        on every reconnect: server connection and listening ports down (if up), Network.initialize().
+        The file connections go on; the limit in force stays the last one set at run time."""
+        from .. import simnet
+        if self.sim is None:
+            self.sim = simnet.SimNet(self.loop).install()
+            self.own_sim = True
+        key = ('*', int(self.settings.network.server.port))
+        if key not in self.sim.listeners:
+            async def server(reader, writer):      # a server that accepts and says nothing
+                self.objs.append((reader, writer))
+            await asyncio.start_server(server, '0.0.0.0', key[1])
+        try:
+            for conn in [self.net.server_connection] + [lc for lc in self.net.listening_connections if lc]:
+                await conn.disconnect()
+            await self.net.initialize()
+        except asyncio.CancelledError:
+            raise
+        except Exception as exc:
+            # the rig could not bring the network up: not an observation about the limits
+            self.reinit_errors = getattr(self, 'reinit_errors', 0) + 1
+            self.last_reinit_error = repr(exc)[:200]
+            return
+        self.reinits += 1
+        REINITS[0] += 1
+        self.events.append(dict(ev='reinit', t=ticks(self.loop)))
+
+    def close(self):
+        if self.sim is not None and self.own_sim:
+            self.sim.uninstall()
+            self.sim = None
 
     def note_sleep(self, delay):
         info = self.task_conn.get(asyncio.current_task())
@@ -249,6 +289,8 @@ def run_stimuli(sc: dict) -> list[dict]:
                 await advance(st[1])
             elif st[0] == 'set':
                 rig.set_limit(st[1])
+            elif st[0] == 'reinit':
+                await rig.reinit()
             elif st[0] == 'cancel':
                 cancel(st[1])
             elif st[0] == 'tick+cancel':          # the clock moves, c is cancelled before anything due runs
@@ -320,7 +362,10 @@ def run_auto(sc: dict) -> list[dict]:
                     if at > t:
                         await real_sleep((at - t) / TPS)
                         t = at
-                    rig.set_limit(k)
+                    if k == 'reinit':
+                        await rig.reinit()
+                    else:
+                        rig.set_limit(k)
 
             async def just_in_time(c):
                 """An adversarial competitor: looks at every clock reading whether a call made now would
@@ -410,6 +455,7 @@ def run_wire(sc: dict) -> list[dict]:
         patched = []
         try:
             rig = Rig(loop, sc['k0'], sc['n'], sc['dir'], jit=0, timely=1)
+            rig.sim = net
             rig.events[0]['wire'] = 1
             info: dict = {}
 
@@ -512,7 +558,10 @@ def run_wire(sc: dict) -> list[dict]:
                     if at > t:
                         await asyncio.sleep((at - t) / TPS)
                         t = at
-                    rig.set_limit(k)
+                    if k == 'reinit':
+                        await rig.reinit()
+                    else:
+                        rig.set_limit(k)
 
             async def canceller():        # the transfer of connection c is aborted (its task cancelled)
                 now = 0
@@ -633,6 +682,18 @@ def regression_scenarios() -> list[dict]:
          cancels=[(50, 2), (400, 3), (1000, 1), (1001, 2), (3000, 3), (3000, 1)])
     auto('saturate-4x-k40-cancels', 40, [[(0, 5000)], [(1, 5000)], [(1, 5000)], [(3, 5000)]], 8 * TPS,
          cancels=[(1100 + 7 * i, 1 + i % 4) for i in range(40)], d='down')
+    # the network is initialised (start, reconnect) after a limit was set at run time: the limit stays
+    for k in (1, 10):
+        stim(f'reinit-after-set-{k}', 0, 2, [('set', k)] + drain(k) + [('reinit',)] + drain(k) + [('req', 2)] * 20 +
+             [('tick', 300), ('reinit',)] + [('req', 1), ('req', 2)] * 20, d='up' if k == 1 else 'down')
+        tstim(f'reinit-while-waiting-{k}', k, 2, drain(k) + [('req', 2), ('tick', 5), ('reinit',)] + keep_asking((1, 2), 30))
+    stim('reinit-first-then-set', 0, 1, [('reinit',), ('set', 2)] + drain(2) + [('reinit',), ('tick', 100)] + drain(2))
+    stim('reinit-unlimited-stays-unlimited', 3, 2, [('set', 0), ('reinit',)] + [('req', 1), ('req', 2)] * 10)
+    auto('reinit-saturated', 0, [[(20, 4000)], [(25, 4000)]], 5 * TPS, sets=[(5, 3), (1000, 'reinit'), (2000, 'reinit')])
+    out.append(dict(kind='wire', name='wire-reinit-mid-transfer', k0=0, n=2, dir='up', sizes=[40000, 40000],
+                    starts=[20, 30], sets=[(5, 4), (600, 'reinit')], cancels=[], dur=12 * TPS))
+    out.append(dict(kind='wire', name='wire-reinit-mid-download', k0=0, n=2, dir='down', sizes=[40000, 40000],
+                    starts=[20, 30], sets=[(5, 4), (600, 'reinit')], cancels=[], dur=12 * TPS))
     # adversarial arrival times: a competitor that calls take_tokens() exactly at the clock readings at
     # which a call finds tokens while another connection is waiting for them (finer than the poll period)
     for k in (1, 2, 3, 4, 6):
@@ -710,7 +771,9 @@ def random_stim(rng, i) -> dict:
             steps += [('req', rng.randint(1, n) if rng.random() < 0.3 else c) for _ in range(rng.choice([1, 1, 2, 5, 9, 17, 40]))]
         elif r < 0.86:
             steps.append(('tick', max(1, _draw_gap(rng))))
-        elif r < 0.92 and n > 1:
+        elif r < 0.88:
+            steps.append(('reinit',))
+        elif r < 0.93 and n > 1:
             steps.append(('cancel', rng.randint(1, n)) if rng.random() < 0.7 else ('tick+cancel', rng.randint(1, 30), rng.randint(1, n)))
         else:
             kcur = rng.choice(small + [_draw_limit(rng), kcur])
@@ -798,6 +861,7 @@ class Hang(KeyboardInterrupt):
 
 
 _LAST_RIG: list = [None]
+REINITS = [0]          # successful Network.initialize() calls made by the rigs of this run
 WALL_LIMIT = 30.0      # safety net only: a scenario needs well under a second of wall time
 _HANGS = [0]           # scenarios that hit the safety net in this run
 MAX_HANGS = 4          # after that many the remaining scenarios are not started
@@ -831,6 +895,8 @@ def execute(sc: dict) -> list[dict]:
     finally:
         signal.setitimer(signal.ITIMER_REAL, 0)
         signal.signal(signal.SIGALRM, old)
+        if _LAST_RIG[0] is not None:
+            _LAST_RIG[0].close()
 
 
 # ---------------------------------------------------------------------------
@@ -843,6 +909,9 @@ _LAB = re.compile(r'(Request|Tick|SetLimit|Poll|Cancel)\((\d+)\)')
 def stimuli_of(labels) -> tuple:
     out = []
     for lab in labels:
+        if lab.startswith('Reinit'):
+            out.append(('reinit',))
+            continue
         m = _LAB.match(lab)
         if not m:
             continue
@@ -1090,7 +1159,7 @@ def run(chk: Check, args):
                        '(RateLimiterTrace, Exact = FALSE); distinct = distinct recorded traces; non-trivial = at least '
                        'one grant under a limit')
     W = 2
-    expect = ['Request', 'Poll', 'Tick', 'SetLimit', 'Cancel']
+    expect = ['Request', 'Poll', 'Tick', 'SetLimit', 'Cancel', 'Reinit']
     dev_fast = bool(os.environ.get('VERIF_C20_DEV_SKIP_MODELS'))    # development aid (mutant loops) only
     if dev_fast:
         chk.log('DEVELOPMENT MODE: design models and conformance skipped')
@@ -1162,6 +1231,10 @@ def _executions(chk: Check, thorough: bool, tlc_scs: list, conform: bool):
     if _HANGS[0]:
         chk.notes.append(f'{_HANGS[0]} scenario(s) never let virtual time pass (busy loop); after {MAX_HANGS} the remaining '
                          'scenarios were not started')
+    chk.cov['network_reinitialisations'] = REINITS[0]
+    if REINITS[0] == 0:
+        raise MachineryFailure('the rig never managed to run Network.initialize() (' +
+                               str(getattr(_LAST_RIG[0], 'last_reinit_error', '?')) + ')')
     chk.log(f'executed {len(scs)} scenarios on the real code ({len(tlc_scs)} from TLC behaviours), '
             f'{sum(len(t) for t in traces)} records')
     chk.cov['scenarios'] = {k: sum(1 for s in scs if s['kind'] == k) for k in ('stim', 'auto', 'wire')}
